@@ -18,6 +18,7 @@ def Honours (op : Op) (o : Out) (c : Nat) : Prop :=
   | .userinfo tok, .userinfo _ _ => tok = c
   | .introspect _ tok, .introspect true _ => tok = c
   | .refresh _ rt _, .tokens _ _ _ _ _ => rt = c
+  | .exchange _ subj _ _ _, .exchanged _ _ => subj = c
   | .tokenProcess _, .tokens (some code) _ _ _ _ => code = c
   | _, _ => False
 
@@ -141,6 +142,25 @@ theorem dead_not_honoured_step (cfg : Cfg) (s : St) (op : Op) (c : Nat) (h : Dea
                     · rename_i hact
                       have := dead_inactive (hh ▸ h) hct'
                       simp [this] at hact
+  | exchange cl subj st rt sc =>
+    simp only [step] at hh
+    split at hh
+    · simp [Honours] at hh
+    · rename_i t ht
+      split at hh
+      · simp [Honours] at hh
+      · split at hh
+        · simp [Honours] at hh
+        · split at hh
+          · simp [Honours] at hh
+          · split at hh
+            · simp [Honours] at hh
+            · rename_i hact
+              -- whatever follows the liveness check, honouring means the subject token is `c`
+              have hc : subj = c := by
+                repeat (first | (simp [Honours] at hh; done) | (simpa [Honours] using hh) | split at hh)
+              subst hc
+              simp [dead_inactive h ht] at hact
   | tick n => simp [step, Honours] at hh
   | authorize u cl sc r =>
     simp only [step] at hh
@@ -161,6 +181,9 @@ theorem dead_not_honoured_step (cfg : Cfg) (s : St) (op : Op) (c : Nat) (h : Dea
     simp only [step] at hh
     repeat (first | (simp [Honours] at hh; done) | split at hh)
   | revokeUser u =>
+    simp only [step] at hh
+    repeat (first | (simp [Honours] at hh; done) | split at hh)
+  | logoutAll u =>
     simp only [step] at hh
     repeat (first | (simp [Honours] at hh; done) | split at hh)
   | remove g =>
@@ -245,6 +268,36 @@ theorem revoke_client_cascades (cfg : Cfg) (s : St) (user client : Str) (hi : In
   simp only [step, hne]
   apply dead_of_all_revoked
   · have := (foldl_revokeGr_adv ((s.grants.filter (fun g => g.user = user ∧ g.client = client)).map (·.id)) s).next
+    exact Nat.lt_of_lt_of_le (inv_lt hi ht) this
+  · intro t' ht' hid
+    obtain ⟨t0, ht0, hid0, _, hr⟩ := foldl_revokeGr_kills _ s t' ht'
+    have : t0 = t := inv_uniq hi ht0 ht (by rw [← hid0]; exact hid)
+    subst this
+    exact hr (Or.inr (by rw [hgid]; exact hmem))
+
+/-- logout from all clients ends every client session that is told about it: the client registered
+    a logout URI and an ID token was ever issued in the session — however old or revoked that ID
+    token is by now -/
+theorem logout_all_cascades (cfg : Cfg) (s : St) (user : Str) (hi : Inv s)
+    (g g' : Gr) (hg : g ∈ s.grants) (hu : g.user = user) (hl : cfg.logoutUri g.client = true)
+    (hg' : g' ∈ s.grants) (hu' : g'.user = user) (hc' : g'.client = g.client) (hid' : hasIdToken s g' = true)
+    (t : Tok) (ht : t ∈ s.toks) (hgid : t.gid = g.id) :
+    Dead (step cfg s (.logoutAll user)).1 t.id := by
+  have hmem : g.id ∈ logoutTargets cfg s user := by
+    unfold logoutTargets
+    refine List.mem_map.mpr ⟨g, List.mem_filter.mpr ⟨hg, ?_⟩, rfl⟩
+    simp only [hu, hl, decide_true, Bool.and_true, Bool.true_and, List.any_eq_true]
+    simp only [true_and, decide_eq_true_eq]
+    exact ⟨g', hg', by simp [hu', hc', hid']⟩
+  have hne : (s.grants.filter (fun g => g.user = user)).isEmpty = false := by
+    cases h : s.grants.filter (fun g => g.user = user) with
+    | nil =>
+      have : g ∈ s.grants.filter (fun g => g.user = user) := List.mem_filter.mpr ⟨hg, by simp [hu]⟩
+      rw [h] at this; simp at this
+    | cons => rfl
+  simp only [step, hne]
+  apply dead_of_all_revoked
+  · have := (foldl_revokeGr_adv (logoutTargets cfg s user) s).next
     exact Nat.lt_of_lt_of_le (inv_lt hi ht) this
   · intro t' ht' hid
     obtain ⟨t0, ht0, hid0, _, hr⟩ := foldl_revokeGr_kills _ s t' ht'
